@@ -403,10 +403,9 @@ def run(ctx, rep, model=True):
         run_spec(ctx, rep, spec, model)
         if len(rep.violations) >= 12:
             return
-    if not ctx.quick:
-        # (thorough tier only: writing the plotfile takes a quarter of a minute)
-        rep.count("level-of-36864-boxes")
-        run_spec(ctx, rep, many_boxes_spec(), False, only="marinate")
+    # (both tiers since session 4: writing the plotfile takes a quarter of a minute, which the quick tier can afford)
+    rep.count("level-of-36864-boxes")
+    run_spec(ctx, rep, many_boxes_spec(), False, only="marinate")
 
 
 def many_boxes_spec():
